@@ -23,10 +23,10 @@ type C36Case struct {
 	// Concurrent: a second client compiles the same workspace on the same
 	// executor at the same time (its runs are all warm); every report of either
 	// client must equal the reference.
-	Concurrent int `json:"concurrent_runs,omitempty"`
-	Perm  []int     `json:"perm"`  // permutation seed for the Canonicalize oracle
-	Synth []SynDiag `json:"synth"` // synthetic diagnostics for the Canonicalize oracle
-	Sched Sched     `json:"sched"`
+	Concurrent int       `json:"concurrent_runs,omitempty"`
+	Perm       []int     `json:"perm"`  // permutation seed for the Canonicalize oracle
+	Synth      []SynDiag `json:"synth"` // synthetic diagnostics for the Canonicalize oracle
+	Sched      Sched     `json:"sched"`
 }
 
 type C36Run struct {
@@ -80,7 +80,7 @@ func genC36(t *rapid.T) C36Case {
 		}
 		c.Synth = append(c.Synth, d)
 	}
-	c.Sched = Sched{Tape: genTape(t, 500), Disabled: genDisabled(t, incrOptional), PCT: genPCT(t, 200)}
+	c.Sched = Sched{Tape: genTape(t, 500), Disabled: genDisabled(t, incrOptional), PCT: genPCT(t, 200), Tail: genTail(t)}
 	return c
 }
 
